@@ -283,6 +283,21 @@ func (w *World) absorb() {
 		case "frame":
 			c := w.Clients[e.Conn]
 			c.Ref.Frame(e.Payload, e.T)
+			if r := c.Ref.LastResp; r != nil && r.ResRootErr && r.Resp == 1 {
+				// A resource response whose root is an error entry: after an access
+				// denial the client is left without a direct subscription (C04), after
+				// a load error the subscription stands (C08). Decide from the access
+				// answer this connection last received for the resource.
+				switch w.lastAccessVerdict(c, r.ResRID, e.T) {
+				case 0:
+					c.Ref.Direct[r.ResRID]--
+					c.Ref.DirectLog = append(c.Ref.DirectLog, DirectRec{T: e.T, RID: r.ResRID, Kind: "res-denied", Count: 1, After: c.Ref.Direct[r.ResRID]})
+					r.ResDenied = true
+				case 1:
+				default:
+					c.Ref.AmbigDirect[r.ResRID] = true
+				}
+			}
 		case "eof":
 			w.Clients[e.Conn].Ref.Closed = true
 		}
